@@ -1,4 +1,7 @@
 import Pyunicorn.Lemmas.EventsSpec
+import Pyunicorn.Lemmas.EventsReal
+import Pyunicorn.Lemmas.EventsQuantile
+import Pyunicorn.Generated.ArithC16
 /-!
 # C16 — Event synchronisation / coincidence follow their counting rules
 
@@ -40,8 +43,8 @@ theorem es_affine (k c : Rat) (hk : 0 < k) (ex ey : List Rat) (tm : Option Rat) 
 theorem es_shift (c : Rat) (ex ey : List Rat) (tm : Option Rat) (lag : Rat) :
     es (ex.map (· + c)) (ey.map (· + c)) tm lag = es ex ey tm lag := by
   have h := es_affine 1 c (by decide) ex ey tm lag
-  have e1 : affT 1 c = (· + c) := by funext t; simp [affT, Rat.one_mul]
-  have e2 : tm.map ((1 : Rat) * ·) = tm := by cases tm <;> simp [Rat.one_mul]
+  have e1 : affT 1 c = (· + c) := by funext t; simp [affT]
+  have e2 : tm.map ((1 : Rat) * ·) = tm := by cases tm <;> simp
   rw [e1, e2, Rat.one_mul] at h
   exact h
 
@@ -49,7 +52,7 @@ theorem es_shift (c : Rat) (ex ey : List Rat) (tm : Option Rat) (lag : Rat) :
 theorem es_scale (k : Rat) (hk : 0 < k) (ex ey : List Rat) (lag : Rat) :
     es (ex.map (k * ·)) (ey.map (k * ·)) none (k * lag) = es ex ey none lag := by
   have h := es_affine k 0 hk ex ey none lag
-  have e1 : affT k 0 = (k * ·) := by funext t; simp [affT, Rat.add_zero]
+  have e1 : affT k 0 = (k * ·) := by funext t; simp [affT]
   rw [e1] at h
   exact h
 
@@ -57,7 +60,7 @@ theorem es_scale (k : Rat) (hk : 0 < k) (ex ey : List Rat) (lag : Rat) :
 theorem es_scale_window (k : Rat) (hk : 0 < k) (ex ey : List Rat) (m lag : Rat) :
     es (ex.map (k * ·)) (ey.map (k * ·)) (some (k * m)) (k * lag) = es ex ey (some m) lag := by
   have h := es_affine k 0 hk ex ey (some m) lag
-  have e1 : affT k 0 = (k * ·) := by funext t; simp [affT, Rat.add_zero]
+  have e1 : affT k 0 = (k * ·) := by funext t; simp [affT]
   rw [e1] at h
   exact h
 
@@ -154,6 +157,29 @@ example : ∃ a b n, es [0, 1, 2, 4, 6, 7] [0, 1, 3, 4, 6, 8] (some 1) (1/2) = .
   ⟨_, _, _, rfl⟩
 
 
+/-! ## the returned strengths `count / sqrt((lx-2)(ly-2))` over the reals -/
+
+/-- **range of the returned values**: for strictly increasing event times both values
+`countxy / sqrt((lx-2)(ly-2))`, `countyx / sqrt(…)` that `event_synchronization` returns
+lie in `[0, 1]` (real square root; float rounding is outside the model) -/
+theorem es_strength_range (ex ey : List Rat) (tm : Option Rat) (lag : Rat) (a b : Rat) (n : Nat)
+    (hx : List.Pairwise (· < ·) ex) (hy : List.Pairwise (· < ·) ey)
+    (h : es ex ey tm lag = .val a b n) :
+    (0 ≤ strength a n ∧ strength a n ≤ 1) ∧ (0 ≤ strength b n ∧ strength b n ≤ 1) := by
+  obtain ⟨⟨ha0, ha1⟩, ⟨hb0, hb1⟩⟩ := es_range ex ey tm lag a b n hx hy h
+  exact ⟨strength_unit_interval a n ha0 ha1, strength_unit_interval b n hb0 hb1⟩
+
+/-- value of an ES matrix entry -/
+noncomputable def esEntryValue (e : ESEntry) : Option ℝ := e.map fun p => strength p.1 p.2
+
+/-- the model symmetrises the *counts* of a pair; that is the table applied to the two
+returned strengths (`x/c op y/c = (x op y)/c`, both entries of a pair share the norm) -/
+theorem esSymmOp_value (s : Symm) (x y : Rat) (n : Nat) :
+    esEntryValue (esSymmOp s (some (x, n)) (some (y, n)))
+      = some (symmOpR s (strength x n) (strength y n)) := by
+  rw [symmOpR_strength]
+  cases s <;> rfl
+
 /-! ## event coincidence analysis -/
 
 /-- **range**: every rate returned by `event_coincidence_analysis` lies in `[0,1]`
@@ -211,6 +237,47 @@ theorem eca_shift (c : Rat) (e1 e2 : List Rat) (tm lag : Rat) :
   unfold eca
   simp only [List.map_eq_nil_iff, List.length_map, nStart_shift, nEnd_shift,
     ← List.map_drop, ← List.map_take, prec_shift, trig_shift]
+
+/-- **affine invariance of all four coincidence rates**: times `t ↦ k·t + c` (`k > 0`) in
+both series with `taumax ↦ k·taumax`, `lag ↦ k·lag` leave `event_coincidence_analysis`
+unchanged (a change of the time unit; `eca_shift` is `k = 1`) -/
+theorem eca_affine (k c : Rat) (hk : 0 < k) (e1 e2 : List Rat) (tm lag : Rat) :
+    eca (e1.map (affT k c)) (e2.map (affT k c)) (k * tm) (k * lag) = eca e1 e2 tm lag := by
+  have e0 : k * lag + k * tm = k * (lag + tm) := by grind
+  have p0 : ∀ as bs, prec (inWin 0 (k * tm)) (k * lag) (List.map (affT k c) as)
+      (List.map (affT k c) bs) = prec (inWin 0 tm) lag as bs := by
+    intro as bs
+    have := prec_aff k c 0 tm lag hk as bs
+    rwa [Rat.mul_zero] at this
+  have t0 : ∀ as bs, trig (inWin 0 (k * tm)) (k * lag) (List.map (affT k c) as)
+      (List.map (affT k c) bs) = trig (inWin 0 tm) lag as bs := by
+    intro as bs
+    have := trig_aff k c 0 tm lag hk as bs
+    rwa [Rat.mul_zero] at this
+  unfold eca
+  simp only [List.map_eq_nil_iff, List.length_map, inst_aff k tm lag hk, e0, nStart_aff k c hk,
+    nEnd_aff k c hk, ← List.map_drop, ← List.map_take, p0, t0]
+
+/-- the same for the three window types of `_eca_coincidence_rate` -/
+theorem ecaRate_affine (w : Window) (k c : Rat) (hk : 0 < k) (e1 e2 : List Rat) (tm lag : Rat) :
+    ecaRate w (e1.map (affT k c)) (e2.map (affT k c)) (k * tm) (k * lag)
+      = ecaRate w e1 e2 tm lag := by
+  have e0 : k * lag + k * tm = k * (lag + tm) := by grind
+  have ng : -(k * tm) = k * (-tm) := by grind
+  have p0 : ∀ as bs, prec (inWin 0 (k * tm)) (k * lag) (List.map (affT k c) as)
+      (List.map (affT k c) bs) = prec (inWin 0 tm) lag as bs := by
+    intro as bs
+    have := prec_aff k c 0 tm lag hk as bs
+    rwa [Rat.mul_zero] at this
+  have t0 : ∀ as bs, trig (inWin 0 (k * tm)) (k * lag) (List.map (affT k c) as)
+      (List.map (affT k c) bs) = trig (inWin 0 tm) lag as bs := by
+    intro as bs
+    have := trig_aff k c 0 tm lag hk as bs
+    rwa [Rat.mul_zero] at this
+  unfold ecaRate
+  cases w <;>
+  simp only [List.map_eq_nil_iff, List.length_map, inst_aff k tm lag hk, e0, nStart_aff k c hk,
+    nEnd_aff k c hk, ← List.map_drop, ← List.map_take, ng, p0, t0, prec_aff k c _ _ _ hk]
 
 /-- **range** for the three window types of `_eca_coincidence_rate` -/
 theorem ecaRate_range (w : Window) (e1 e2 : List Rat) (tm lag : Rat) (a b : Rate)
@@ -422,6 +489,162 @@ theorem ecaSeries_eq_formula (ts1 ts2 : List Rat) (bx by_ : List Bool) (tm lag :
   ⟨eca_eq_formula _ _ tm lag (select_sorted ts1 bx h1) (select_sorted ts2 by_ h2),
    ecaRate_eq_formula w _ _ tm lag (select_sorted ts1 bx h1) (select_sorted ts2 by_ h2)⟩
 
+/-! ## tie to the source text: the model is built from the expressions `translate/gen_arith.py`
+regenerates from `event_series.py` on every run (`Pyunicorn.Generated.ArithC16`)
+
+If a guard, a comparison, the double-count arithmetic, a boundary threshold, a window test
+or the pairing of a count with its denominator changes in the source, the generated
+definition changes and the theorem below no longer type-checks. -/
+
+section generated
+open Pyunicorn.Generated
+
+/-- `event_synchronization`: guards, squared norm and both count formulas are the source's -/
+theorem gen_es (ex ey : List Rat) (tm : Option Rat) (lag : Rat) :
+    es ex ey tm lag =
+      (let ey' := ey.map (· + lag)
+       let xs := innerEvents ex
+       let ys := innerEvents ey'
+       let size : Int := (xs.length * ys.length : Nat)
+       if ArithC16.esNanGuard ex.length ey'.length then .nan
+       else if ArithC16.esZeroGuard ex.length ey'.length then .zero
+       else .val
+         (ArithC16.esCountXY (count2 (axy tm) xs ys)
+            (ArithC16.esEqtime size (size - (count2 eqt xs ys : Nat))) (dblxy tm xs ys))
+         (ArithC16.esCountYX (count2 (ayx tm) xs ys)
+            (ArithC16.esEqtime size (size - (count2 eqt xs ys : Nat))) (dblyx tm xs ys))
+         (ArithC16.esNormSq ex.length ey'.length).toNat) := by
+  have g1 : (ex.length = 0 ∨ (ey.map (· + lag)).length = 0) ↔
+      ((ex.length : Int) = 0 ∨ ((ey.map (· + lag)).length : Int) = 0) := by omega
+  have g2 : (ex.length = 1 ∨ ex.length = 2 ∨ (ey.map (· + lag)).length = 1 ∨
+      (ey.map (· + lag)).length = 2) ↔
+      (((ex.length : Int) = 1 ∨ (ex.length : Int) = 2) ∨
+        ((ey.map (· + lag)).length : Int) = 1 ∨ ((ey.map (· + lag)).length : Int) = 2) := by omega
+  unfold es
+  simp only [ArithC16.esNanGuard, ArithC16.esZeroGuard, ArithC16.esCountXY, ArithC16.esCountYX,
+    ArithC16.esEqtime, ArithC16.esNormSq, countXY, countYX, decide_eq_true_eq, g1, g2]
+  split
+  · rfl
+  · split
+    · rfl
+    · rename_i h1 h2
+      congr 1
+      · simp only [Int.sub_sub_self, Rat.intCast_natCast]; grind
+      · simp only [Int.sub_sub_self, Rat.intCast_natCast]; grind
+      · have : ((ex.length : Int) - 2) * (((ey.map (· + lag)).length : Int) - 2)
+            = (((ex.length - 2) * ((ey.map (· + lag)).length - 2) : Nat) : Int) := by
+          rw [Int.natCast_mul]; congr 1 <;> omega
+        rw [this, Int.toNat_natCast]
+
+/-- the entries of `dstxy2`, `tau2`, `Axy`, `Ayx` and the neighbouring-gap minimum are the
+source's expressions -/
+theorem gen_es_kernel (m : Rat) (p q : Ev) (a b c : Rat) (t : List Rat) :
+    dst2 p q = ArithC16.esDst2 p.1 q.1 ∧
+    tau2 none p q = ArithC16.esTau2 p.2 q.2 ∧
+    tau2 (some m) p q = ArithC16.esTauCap (ArithC16.esTau2 p.2 q.2) m ∧
+    (∀ tm, axy tm p q = ArithC16.esAxy (dst2 p q) (tau2 tm p q)) ∧
+    (∀ tm, ayx tm p q = ArithC16.esAyx (dst2 p q) (tau2 tm p q)) ∧
+    innerEv (a :: b :: c :: t) = (b, ArithC16.esGapMinX (c - b) (b - a)) :: innerEv (b :: c :: t) ∧
+    innerEv (a :: b :: c :: t) = (b, ArithC16.esGapMinY (c - b) (b - a)) :: innerEv (b :: c :: t) := by
+  refine ⟨?_, rfl, rfl, ?_, ?_, rfl, rfl⟩
+  · simp only [dst2, ArithC16.esDst2]; rfl
+  · intro tm
+    simp only [axy, ArithC16.esAxy, Bool.decide_and]
+    rfl
+  · intro tm
+    simp only [ayx, ArithC16.esAyx, Bool.decide_and]
+    congr 1
+
+/-- `event_coincidence_analysis`: the instantaneous switch, the boundary thresholds and the
+window tests are the source's expressions -/
+theorem gen_eca_kernel (lag tm t h a b : Rat) :
+    ArithC16.ecaNotInstant lag tm = !(decide (lag = 0) && decide (tm = 0)) ∧
+    ArithC16.ecaEarly1 t h lag tm = decide (t ≤ h + (lag + tm)) ∧
+    ArithC16.ecaEarly2 t h lag tm = decide (t ≤ h + (lag + tm)) ∧
+    ArithC16.ecaLate1 t h lag tm = decide (h - (lag + tm) ≤ t) ∧
+    ArithC16.ecaLate2 t h lag tm = decide (h - (lag + tm) ≤ t) ∧
+    ArithC16.ecaWin12 (a - b) lag tm = inWin 0 tm (a - b - lag) ∧
+    ArithC16.ecaWinT12 (a - b) lag tm = inWin 0 tm (a - b - lag) ∧
+    ArithC16.ecaWin21 (b - a) lag tm = inWin 0 tm (a - b - lag) ∧
+    ArithC16.ecaWinT21 (b - a) lag tm = inWin 0 tm (a - b - lag) ∧
+    ArithC16.rateSymWin12 (a - b) lag (ArithC16.rateSymLo tm) (ArithC16.rateSymHi tm)
+      = inWin (-tm) tm (a - b - lag) ∧
+    ArithC16.rateSymWin21 (b - a) lag (ArithC16.rateSymLo tm) (ArithC16.rateSymHi tm)
+      = inWin (-tm) tm (a - b - lag) ∧
+    ArithC16.rateSymLate1 t h lag (ArithC16.rateSymLo tm) = decide (h - (lag + tm) ≤ t) := by
+  simp only [ArithC16.ecaNotInstant, ArithC16.ecaEarly1, ArithC16.ecaEarly2, ArithC16.ecaLate1,
+    ArithC16.ecaLate2, ArithC16.ecaWin12, ArithC16.ecaWinT12, ArithC16.ecaWin21,
+    ArithC16.ecaWinT21, ArithC16.rateSymWin12, ArithC16.rateSymWin21, ArithC16.rateSymLo,
+    ArithC16.rateSymHi, ArithC16.rateSymLate1, inWin]
+  refine ⟨?_, ?_, ?_, ?_, ?_, ?_, ?_, ?_, ?_, ?_, ?_, ?_⟩ <;> grind
+
+/-- a rate: NaN for the denominator `0`, else the source's quotient -/
+def mkRate (v : Rat) (d : Int) : Rate := if d = 0 then .nan else .val v
+
+/-- `event_coincidence_analysis`: each count is divided by the denominator the source's
+`return` pairs it with -/
+theorem gen_eca_rates (e1 e2 : List Rat) (tm lag : Rat) :
+    eca e1 e2 tm lag =
+      (if e1 = [] ∨ e2 = [] then none else
+       let inst : Bool := !ArithC16.ecaNotInstant lag tm
+       let n11 := if inst then 0 else nStart e1 (lag + tm)
+       let n12 := if inst then 0 else nEnd e1 (lag + tm)
+       let n21 := if inst then 0 else nStart e2 (lag + tm)
+       let n22 := if inst then 0 else nEnd e2 (lag + tm)
+       let l1 := e1.length
+       let l2 := e2.length
+       let win := inWin 0 tm
+       let p12 := prec win lag (e1.drop n11) e2
+       let t12 := trig win lag e1 (e2.take (l2 - n22))
+       let p21 := prec win lag (e2.drop n21) e1
+       let t21 := trig win lag e2 (e1.take (l1 - n12))
+       some {
+         prec12 := mkRate (ArithC16.ecaRet0 p12 t12 p21 t21 l1 l2 n11 n12 n21 n22) ((l1 : Int) - n11)
+         trig12 := mkRate (ArithC16.ecaRet1 p12 t12 p21 t21 l1 l2 n11 n12 n21 n22) ((l2 : Int) - n22)
+         prec21 := mkRate (ArithC16.ecaRet2 p12 t12 p21 t21 l1 l2 n11 n12 n21 n22) ((l2 : Int) - n21)
+         trig21 := mkRate (ArithC16.ecaRet3 p12 t12 p21 t21 l1 l2 n11 n12 n21 n22) ((l1 : Int) - n12) }) := by
+  have hi : (!ArithC16.ecaNotInstant lag tm) = (decide (lag = 0) && decide (tm = 0)) := by
+    rw [(gen_eca_kernel lag tm 0 0 0 0).1, Bool.not_not]
+  unfold eca
+  simp only [hi, rate, mkRate, ArithC16.ecaRet0, ArithC16.ecaRet1, ArithC16.ecaRet2,
+    ArithC16.ecaRet3, Rat.intCast_natCast]
+
+/-- `_eca_coincidence_rate`: the same for the three window types (`advanced`: `n12 = n22 = 0`) -/
+theorem gen_ecaRate_rates (w : Window) (e1 e2 : List Rat) (tm lag : Rat) :
+    ecaRate w e1 e2 tm lag =
+      (if e1 = [] ∨ e2 = [] then none else
+       let inst : Bool := !ArithC16.ecaNotInstant lag tm
+       let n11 := if inst then 0 else nStart e1 (lag + tm)
+       let n12 := if inst then 0 else nEnd e1 (lag + tm)
+       let n21 := if inst then 0 else nStart e2 (lag + tm)
+       let n22 := if inst then 0 else nEnd e2 (lag + tm)
+       let l1 := e1.length
+       let l2 := e2.length
+       match w with
+       | .advanced =>
+         let c12 := prec (inWin 0 tm) lag (e1.drop n11) e2
+         let c21 := prec (inWin 0 tm) lag (e2.drop n21) e1
+         some (mkRate (ArithC16.rateRet0 c12 c21 l1 l2 n11 0 n21 0) ((l1 : Int) - n11 - 0),
+               mkRate (ArithC16.rateRet1 c12 c21 l1 l2 n11 0 n21 0) ((l2 : Int) - n21 - 0))
+       | .retarded =>
+         let c12 := trig (inWin 0 tm) lag e1 (e2.take (l2 - n22))
+         let c21 := trig (inWin 0 tm) lag e2 (e1.take (l1 - n12))
+         some (mkRate (ArithC16.rateRetardedRet0 c12 c21 l1 l2 0 n12 0 n22) ((l2 : Int) - n22),
+               mkRate (ArithC16.rateRetardedRet1 c12 c21 l1 l2 0 n12 0 n22) ((l1 : Int) - n12))
+       | .symmetric =>
+         let c12 := prec (inWin (-tm) tm) lag ((e1.take (l1 - n12)).drop n11) e2
+         let c21 := prec (inWin (-tm) tm) lag ((e2.take (l2 - n22)).drop n21) e1
+         some (mkRate (ArithC16.rateRet0 c12 c21 l1 l2 n11 n12 n21 n22) ((l1 : Int) - n11 - n12),
+               mkRate (ArithC16.rateRet1 c12 c21 l1 l2 n11 n12 n21 n22) ((l2 : Int) - n21 - n22))) := by
+  have hi : (!ArithC16.ecaNotInstant lag tm) = (decide (lag = 0) && decide (tm = 0)) := by
+    rw [(gen_eca_kernel lag tm 0 0 0 0).1, Bool.not_not]
+  unfold ecaRate
+  cases w <;>
+  simp only [hi, rate, mkRate, ArithC16.rateRet0, ArithC16.rateRet1, ArithC16.rateRetardedRet0,
+    ArithC16.rateRetardedRet1, Rat.intCast_natCast]
+
+end generated
+
 /-! ## N×N matrix -/
 
 /-- entry `[i,j]` of the symmetrised matrix is `op M[i,j] M[j,i]` -/
@@ -594,6 +817,69 @@ theorem resolve_defaults (col : List Rat) :
   · rfl
   · simp only [resolveThreshold, Option.getD]
     rw [if_pos Rat.le_refl]
+
+/-! ## how many samples a quantile threshold can mark -/
+
+/-- the `q`-quantile (NumPy `linear`) lies between the order statistics `⌊(n-1)q⌋` and
+`min(⌊(n-1)q⌋+1, n-1)` of the variable's samples -/
+theorem quantile_between_order_statistics (a : List Rat) (q : Rat) (hne : a ≠ [])
+    (h0 : 0 ≤ q) (h1 : q ≤ 1) :
+    ∃ (hlo : qLo a.length q < (sortedOf a).length) (hhi : qHi a.length q < (sortedOf a).length),
+      (sortedOf a)[qLo a.length q] ≤ quantile a q ∧
+      quantile a q ≤ (sortedOf a)[qHi a.length q] :=
+  quantile_bracket a q hne h0 h1
+
+/-- **`'above'` marks at most `n-1-⌊(n-1)q⌋ = ⌈(n-1)(1-q)⌉` of the `n` samples** of a
+variable thresholded at its `q`-quantile -/
+theorem events_above_quantile_le (a : List Rat) (q : Rat) (hne : a ≠ []) (h0 : 0 ≤ q)
+    (h1 : q ≤ 1) :
+    a.countP (mark (quantile a q) .above) ≤ a.length - 1 - qLo a.length q := by
+  obtain ⟨hlo, _, hb, _⟩ := quantile_bracket a q hne h0 h1
+  have := countP_gt_le_of_sorted (sortedOf a) (sortedOf_pairwise a) _ hlo _ hb
+  rw [sortedOf_length] at this
+  rw [← (sortedOf_perm a).countP_eq]
+  exact this
+
+/-- **`'below'` marks at most `min(⌊(n-1)q⌋+1, n-1) ≤ ⌈(n-1)q⌉ + …` samples** -/
+theorem events_below_quantile_le (a : List Rat) (q : Rat) (hne : a ≠ []) (h0 : 0 ≤ q)
+    (h1 : q ≤ 1) :
+    a.countP (mark (quantile a q) .below) ≤ qHi a.length q := by
+  obtain ⟨_, hhi, _, hb⟩ := quantile_bracket a q hne h0 h1
+  have := countP_lt_le_of_sorted (sortedOf a) (sortedOf_pairwise a) _ hhi _ hb
+  rw [← (sortedOf_perm a).countP_eq]
+  exact this
+
+/-- when `(n-1)q` is an integer `k < n` the threshold is the order statistic `k`:
+at most `k` samples are below and at most `n-1-k` above; in particular the `1`-quantile
+(maximum) marks nothing above and the `0`-quantile (minimum) nothing below -/
+theorem events_at_order_statistic (a : List Rat) (q : Rat) (k : Nat) (hk : k < a.length)
+    (hq : ((a.length : Rat) - 1) * q = (k : Rat)) :
+    a.countP (mark (quantile a q) .below) ≤ k ∧
+    a.countP (mark (quantile a q) .above) ≤ a.length - 1 - k := by
+  have hk' : k < (sortedOf a).length := by rw [sortedOf_length]; exact hk
+  have hv : quantile a q = (sortedOf a)[k] := by
+    rw [quantile_at_order_statistic a q k hq]
+    simp [List.getD_eq_getElem?_getD, List.getElem?_eq_getElem hk']
+  have hb := countP_lt_le_of_sorted (sortedOf a) (sortedOf_pairwise a) k hk' _ (le_of_eq hv)
+  have ha := countP_gt_le_of_sorted (sortedOf a) (sortedOf_pairwise a) k hk' _ (le_of_eq hv.symm)
+  rw [sortedOf_length] at ha
+  rw [← (sortedOf_perm a).countP_eq, ← (sortedOf_perm a).countP_eq (mark (quantile a q) .above)]
+  exact ⟨hb, ha⟩
+
+theorem quantile_extremes_mark_nothing (a : List Rat) (hne : a ≠ []) :
+    a.countP (mark (quantile a 1) .above) = 0 ∧ a.countP (mark (quantile a 0) .below) = 0 := by
+  have hn : 1 ≤ a.length := by
+    cases a with
+    | nil => exact absurd rfl hne
+    | cons _ _ => simp
+  have e1 : ((a.length : Rat) - 1) * 1 = ((a.length - 1 : Nat) : Rat) := by
+    have : ((a.length - 1 : Nat) : Rat) + ((1 : Nat) : Rat) = (a.length : Rat) := by
+      rw [← Rat.natCast_add]; congr 1; omega
+    grind
+  have e0 : ((a.length : Rat) - 1) * 0 = ((0 : Nat) : Rat) := by grind
+  have h1 := (events_at_order_statistic a 1 (a.length - 1) (by omega) e1).2
+  have h0 := (events_at_order_statistic a 0 0 (by omega) e0).1
+  omega
 
 /-- non-vacuity: hypotheses of `resolve_quantile` / `resolve_value` are satisfiable -/
 example : resolveThreshold [1, 5, 2, 4] .quantile (some (3/4)) none
